@@ -309,6 +309,24 @@ def proof_stage(ctx, pid, extra_targets=()):
             allok = False
         axioms.update(ax)
     info["axioms"] = sorted(axioms)
+    if ctx.tier == "thorough" and allok and os.environ.get("VERIF_NO_COQCHK") != "1":
+        # independent re-check of the compiled theorems and everything they depend on
+        t = time.time()
+        try:
+            with CoqLock():
+                p = subprocess.run(["timeout", "3000", "coqchk", "-silent", "-o", "-Q", COQ, "Hy", "Hy.props.%s" % pid],
+                                   cwd=COQ, capture_output=True, text=True)
+            txt = p.stdout + p.stderr
+            sect = txt.split("* Axioms:")[-1].split("* Constants/Inductives")[0] if "* Axioms:" in txt else ""
+            chk_ax = [l.strip() for l in sect.splitlines() if l.strip() and l.strip() != "<none>"]
+            unsafe = [k for k in ("type-in-type", "unsafe (co)fixpoints", "positivity is assumed")
+                      if re.search(re.escape(k) + r":\s*(?!<none>)\S", txt)]
+            info["coqchk"] = {"rc": p.returncode, "axioms": chk_ax, "unsafe": unsafe, "wall_s": round(time.time() - t, 1)}
+            if p.returncode != 0 or unsafe:
+                allok = False
+                info["coqchk"]["tail"] = txt[-1500:]
+        except Exception as ex:  # pragma: no cover
+            info["coqchk"] = {"error": str(ex)}
     return allok, info
 
 
@@ -439,6 +457,8 @@ def finish(ctx, proof_info, coverage, violations, assumptions, level="proof", tr
     cov.setdefault("trusted_base", tb)
     cov["theorems"] = proof_info.get("theorems", {})
     cov["proof_build_ok"] = proof_info.get("build_ok", False)
+    if "coqchk" in proof_info:
+        cov["coqchk"] = proof_info["coqchk"]
     if "broken_at" in proof_info:
         cov["proof_broken_at"] = proof_info["broken_at"]
     ev = {"property_id": ctx.pid, "tier": ctx.tier, "seed": ctx.seed, "level": level, "coverage": cov,
